@@ -36,6 +36,7 @@ class Ctx:
         self.atoms = []                 # (atom, description)
         self.sub_vcs = []               # (label, cons, out) of nested expressions that must be faithful on their own
         self.notes = []
+        self.items = {}                 # atom of a many0/many1 -> (cons, out) of ONE item (rule L3)
 
     def fresh(self, desc):
         self.n += 1
@@ -122,6 +123,8 @@ def eval_parser(e, ctx, env):
                 c, o = eval_parser(p_, ctx, env)
                 ctx.sub_vcs.append(('%s.%d' % (f, k), c, o))
             a = ctx.fresh('%s(..)' % f)
+            if f in ('many0', 'many1') and len(parts) == 1:
+                ctx.items[a] = (c, o)
             return [a], A(a)
         if f in NOM_SAME:
             return eval_parser(args[-1], ctx, env)
@@ -349,6 +352,64 @@ def normalize_early_return(stmts):
     return stmts
 
 
+def tok_pattern(toks):
+    """identifier / `_` / (possibly nested) tuple of those, from the token list of a `for` header"""
+    def one(i):
+        if i >= len(toks):
+            return None, i
+        if toks[i] == '(':
+            parts = []
+            i += 1
+            while i < len(toks) and toks[i] != ')':
+                p_, i = one(i)
+                if p_ is None:
+                    return None, i
+                parts.append(p_)
+                if i < len(toks) and toks[i] == ',':
+                    i += 1
+            return (('ptuple', parts), i + 1) if i < len(toks) else (None, i)
+        if toks[i] == '_':
+            return ('pwild',), i + 1
+        if isinstance(toks[i], str) and toks[i].isidentifier() and toks[i] not in ('mut', 'ref'):
+            return ('pvar', toks[i]), i + 1
+        return None, i
+    p_, i = one(0)
+    return p_ if p_ is not None and i == len(toks) else None
+
+
+def fold_rule(e, ctx, env):
+    """(L3) `for PAT in ITEMS { let ..; ACC = VALUE; }` over the items of a many0/many1 (one atom = what all items consumed,
+    in order): a fold.  Generated induction: with ACC standing for one fresh atom (its leaves so far) and PAT bound to the
+    structure of ONE item, the leaves of VALUE must be  ACC ++ what that item consumed  (sub-obligation `for.step`); then
+    after the loop the leaves of ACC are its leaves before the loop followed by everything the items consumed."""
+    hdr, body = e[1], e[2][1]
+    src = hdr[-1]
+    pat = tok_pattern(hdr[1:-2])
+    if pat is None or not isinstance(src, str) or src not in env or env[src][0] != 'out' or env[src][1][0] != 'A':
+        return False
+    atom = env[src][1][1]
+    if atom not in ctx.items or not body:
+        return False
+    last = body[-1]
+    if not (last[0] == 'assign' and last[1][0] == 'var' and last[1][1] in env and env[last[1][1]][0] == 'out'):
+        return False
+    if any(not (st[0] == 'let' and st[1][0] == 'pvar') for st in body[:-1]):
+        return False
+    tgt = last[1][1]
+    c_item, o_item = ctx.items[atom]
+    acc = ctx.fresh('loop accumulator %s' % tgt)
+    env2 = dict(env)
+    env2[tgt] = ('out', A(acc))
+    bind(pat, o_item, env2)
+    for st in body[:-1]:
+        bind(st[1], eval_value(st[2], ctx, env2), env2)
+    new = eval_value(last[2], ctx, env2)
+    ctx.sub_vcs.append(('for.step', [acc] + list(c_item), new))
+    env[tgt] = ('out', ('S', flatten(env[tgt][1]) + [atom]))
+    del env[src]                      # the items are moved into the accumulator
+    return True
+
+
 def eval_stmts(stmts, ctx, env, want_value=False):
     stmts = normalize_early_return(list(stmts))
     cons = []
@@ -403,6 +464,9 @@ def eval_stmts(stmts, ctx, env, want_value=False):
                     if rhs == join and tgt in env and env[tgt][0] == 'out' and flatten(env[tgt][1]) == []:
                         env[tgt] = ('out', ('S', flatten(env[src][1])))
                         continue
+            if e[0] == 'loop' and e[1][0] == 'for' and len(e[1]) >= 4 and e[1][-2] == 'in' and e[2][0] == 'block' and fold_rule(e, ctx, env):
+                continue
+            if e[0] == 'loop':
                 raise Unsupported('for loop of unexpected shape')
             raise Unsupported('statement %s' % e[0])
         if st[0] == 'ret':
